@@ -136,7 +136,8 @@ fn replay(case: &Value) -> Vec<Violation> {
     let (xa, xb) = (bd(&a), bd(&b));
     match (guard(|| observe(&xa)), guard(|| observe(&xb))) {
         (Ok(oa), Ok(ob)) => {
-            if a.eq_val(&b) && oa != ob {
+            // value-equal pairs, and pairs that `==` calls equal (S7), must hash alike
+            if (a.eq_val(&b) || xa == xb) && oa != ob {
                 out.push(Violation::new("Hash::hash", "hash_differs", case.clone(), format!("{:?}", oa.rec.calls), format!("{:?}", ob.rec.calls)).attr("scale", b.s.to_string()).attr("zero", b.n.is_zero()));
             }
             let mut set = HashSet::new();
